@@ -21,6 +21,7 @@ type Clause struct {
 	FnName string // synthetic function name
 	Fn     *ast.FuncDecl
 	Extra  []string // extra parameter declarations (e.g. ret values for ghost hooks)
+	ObjInv bool     // precondition that is the receiver's object invariant (`holds`): assumed at client call sites
 }
 
 type LoopContract struct {
@@ -66,6 +67,8 @@ type Contract struct {
 	Ensures    []*Clause
 	Goals      []*Clause
 	Assigns    []string
+	Holds        []string          // object-invariant clauses (`holds P`)
+	CallbackKeep []string          // `callbacks-keep K...`: function values called by this function leave these heaps alone (assumed, listed)
 	AssignsAt  map[string][]string // `assigns K@p`: heap K is written only at the object parameter p points to (or at fresh objects)
 	HasAssigns bool
 	Pure       bool
@@ -278,6 +281,16 @@ func ParseContracts(src string) *ContractFile {
 			c := &Clause{Kind: "ensures", Text: rest, Props: props, Line: ln, Ord: len(cur.Ensures) + 1}
 			cur.Ensures = append(cur.Ensures, c)
 			lastClause = c
+		case "holds":
+			// object invariant of the receiver: required and ensured by this method.  Clients (functions that are not
+			// methods of the receiver's type) may assume it: the type's tables are private (frame obligation), every method
+			// `holds` it (frame obligation) and the zero value satisfies it.
+			c := &Clause{Kind: "requires", Text: rest, Props: props, Line: ln, Ord: len(cur.Requires) + 1, ObjInv: true}
+			cur.Requires = append(cur.Requires, c)
+			c2 := &Clause{Kind: "ensures", Text: rest, Props: props, Line: ln, Ord: len(cur.Ensures) + 1}
+			cur.Ensures = append(cur.Ensures, c2)
+			cur.Holds = append(cur.Holds, rest)
+			lastClause = nil
 		case "exempt":
 			f := strings.SplitN(rest, " when ", 2)
 			if len(f) != 2 {
@@ -317,6 +330,8 @@ func ParseContracts(src string) *ContractFile {
 					}
 				}
 			}
+		case "callbacks-keep":
+			cur.CallbackKeep = append(cur.CallbackKeep, splitProps(rest)...)
 		case "pure":
 			cur.Pure = true
 			cur.HasAssigns = true
